@@ -262,11 +262,20 @@ void *array::set(size_t len, const void *base)
 			d->unref();
 			return 0;
 		}
+		/* source may be content of the buffer that is replaced */
+		void *ptr = d->data();
+		if (base) {
+			memcpy(ptr, base, len);
+		} else {
+			memset(ptr, 0, len);
+		}
 		_buf.set_instance(d);
+		return ptr;
 	}
 	void *ptr = d->data();
 	if (base) {
-		memcpy(ptr, base, len);
+		/* source may be content of this buffer */
+		memmove(ptr, base, len);
 	} else {
 		memset(ptr, 0, len);
 	}
